@@ -76,6 +76,9 @@ UpdOps == {"E.Add", "E.Subtract", "E.Multiply", "E.Divide", "E.Modulo", "E.Shift
 ArrayUpdInst ==
     {I("arrupd:" \o op, "E", Bin("E.Assign", Index(arr, Num("1")), Bin(op, Index(arr, Num("1")), va))) : op \in UpdOps}
     \cup {I("arrupd:other-index", "E", Bin("E.Assign", Index(arr, Num("1")), Bin("E.Add", Index(arr, Num("2")), Num("1")))),
+          \* different arrays and different indexes whose name and index spell the same text when put together (a1[2] / a[12])
+          I("arrupd:spelled-alike", "E", Bin("E.Assign", Index(Var("a1"), Num("2")), Bin("E.Add", Index(Var("a"), Num("12")), Num("1")))),
+          I("arrupd:spelled-alike-rev", "E", Bin("E.Assign", Index(Var("slot"), Num("10")), Bin("E.Multiply", Index(Var("slot1"), Num("0")), Num("3")))),
           I("arrupd:other-array", "E", Bin("E.Assign", Index(Var("brr"), Num("1")), Bin("E.Add", Index(arr, Num("1")), Num("1")))),
           I("arrupd:call", "E", Bin("E.Assign", Index(arr, Num("1")), CallNamed("fn", <<Index(arr, Num("1"))>>))),
           I("arrupd:var-index", "E", Bin("E.Assign", Index(arr, va), Bin("E.Add", Index(arr, va), Num("1")))),
@@ -231,6 +234,14 @@ WriteInst ==
     \cup {I("write:index", "E", Bin("E.Assign", Index(arr, va), vb)),
           I("write:member", "E", Bin("E.Assign", Member(Var("st"), "x"), vb)),
           I("write:tuple", "E", Bin("E.Assign", N("E.List", [entries |-> <<[present |-> TRUE, storage |-> "", name |-> ""], [present |-> TRUE, storage |-> "", name |-> ""]>>], <<<<sv, Var("other")>>>>), CallNamed("pair", <<>>))),
+          \* a write nested INSIDE the target of another assignment: in the index of a member target, of a tuple component,
+          \* of a parenthesised target, in the index of an indexed target
+          I("write:in-member-target", "E", Bin("E.Assign", Member(Index(Var("recs"), Un("E.PostIncrement", sv)), "owner"), vb)),
+          I("write:in-member-target-assign", "E", Bin("E.Assign", Member(Index(Var("recs"), Paren(Bin("E.Assign", sv, va))), "stamp"), vb)),
+          I("write:in-tuple-target", "E", Bin("E.Assign", N("E.List", [entries |-> <<[present |-> TRUE, storage |-> "", name |-> ""], [present |-> TRUE, storage |-> "", name |-> ""]>>],
+                                                            <<<<Index(Var("bals"), Un("E.PreIncrement", sv)), Var("other")>>>>), CallNamed("pair", <<>>))),
+          I("write:in-paren-target", "E", Bin("E.Assign", Paren(Index(Var("bals"), Un("E.PostDecrement", sv))), vb)),
+          I("write:in-index-target", "E", Bin("E.AssignAdd", Index(Var("bals"), Un("E.PostIncrement", sv)), vb)),
           I("write:delete", "E", Un("E.Delete", sv)),
           I("write:read-only", "E", Bin("E.Add", sv, va)),
           I("write:string-rhs", "E", Bin("E.Assign", Var("sname"), Str("text"))),
